@@ -61,6 +61,17 @@ class Pair:
             self.bad("roundtrip", qt, u, v, None, x, {"y": y, "back": repr(back), "tol": tol})
         elif tol > 0:
             self.maxratio = max(self.maxratio, abs(back - x) / tol * K)
+        # (ii') the way back is a map of its own: an amount *near* y (not y itself) comes back as an amount near x that differs
+        # from the back-conversion of y by what the slope says - right after the forward conversion, with nothing asked in between
+        z = y * (1 + 1e-8) if y else 1e-8
+        C(qt, u, v, x)
+        bz = C(qt, v, u, z)
+        ctx.ev()
+        if not isinstance(back, Exception) and not isinstance(bz, Exception):
+            d = (z - y) * av.slope / au.slope
+            noise = 256 * conv.EPS * (abs(au.off / au.slope) + abs(av.off / au.slope) + abs(x) + abs(d))
+            if abs(d) > 8 * noise and not (0.5 <= (bz - back) / d <= 2.0):
+                self.bad("nearby-amount-on-the-way-back", qt, u, v, None, x, {"y": y, "z": z, "back_of_y": back, "back_of_z": bz, "expected_difference": d})
         # (iii) path independence u->w  vs  u->v->w
         if w is not None:
             aw = aff[w]
@@ -287,6 +298,36 @@ def run(ctx):
                                     if repr(back) != repr(ref_back):
                                         ctx.violation("%s:%s:%s->%s:category-name-differs-from-quantity-type-name" % (kind, cqt, v, u), {"category": c, "by_category": repr(back), "by_quantity_type": repr(ref_back), "x": by_cat, "db": kind})
                 ctx.count("conversions addressed by category name", n_cat)
+            # the scalar route of a quantity (Scalar.GetValue, Quantity.ConvertScalarValue) for amounts asked one after the other on
+            # one shared quantity - small integers and their float twins among them (-1 and -2 hash alike in CPython)
+            if ctx.shard == 0 and kind == "posc":
+                try:
+                    from barril.units import ObtainQuantity as _OQ, Scalar as _Sc
+                except Exception:
+                    _OQ = None
+                seq = [-1.0, -2.0, -1, -2, 1.0, 2.0, 0.0, -0.0, 3, -3.0, 1e-9, -1e9]
+                done_q = set()
+                for u, a in aff.items():
+                    if _OQ is None or a.qt in done_q or a.qt == "Unknown" or not a.exact or not a.slope:
+                        continue
+                    vs_ = [w for w, b in aff.items() if b.qt == a.qt and w != u and b.exact and b.slope]
+                    cat = db.GetDefaultCategory(u)
+                    if not vs_ or not cat:
+                        continue
+                    done_q.add(a.qt)
+                    v = vs_[len(vs_) // 2]
+                    q = _OQ(u, cat)
+                    for x in seq:
+                        ctx.ev()
+                        want = db.Convert(a.qt, u, v, float(x))
+                        try:
+                            got = (q.ConvertScalarValue(x, v), _Sc(x, u).GetValue(v), _Sc(cat, x, u).CreateCopy(unit=v).GetValue())
+                        except Exception as e:
+                            ctx.violation("%s:%s:%s->%s:scalar-route-raised" % (kind, a.qt, u, v), {"x": repr(x), "error": repr(e)[:160], "db": kind})
+                            break
+                        if any(float(g) != want for g in got):
+                            ctx.violation("%s:%s:%s->%s:scalar-route-differs-from-Convert" % (kind, a.qt, u, v), {"x": repr(x), "got": [repr(g) for g in got], "want": want, "asked_before": [repr(t) for t in seq[: seq.index(x)]], "db": kind}, replay={"kind": kind, "qt": a.qt, "u": u, "v": v, "x": float(x)})
+                            break
             # the same container object converted twice with other contents in between (a table that is edited in place and
             # asked again), and arrays too large for any "small array" path: every element is the float conversion of that element
             if ctx.shard == 0:
